@@ -156,12 +156,11 @@ func (r *armoredReader) Read(p []byte) (int, error) {
 		// CR and LF are ignored by the base64 decoder, but we don't want any malleability.
 		return 0, r.setErr(errors.New("unexpected newline character"))
 	}
-	r.unread = r.buf[:]
-	n, err := base64.StdEncoding.Strict().Decode(r.unread, line)
+	n, err := base64.StdEncoding.Strict().Decode(r.buf[:], line)
 	if err != nil {
 		return 0, r.setErr(err)
 	}
-	r.unread = r.unread[:n]
+	r.unread = r.buf[:n]
 
 	if n < format.BytesPerLine {
 		line, err := getLine()
